@@ -38,23 +38,20 @@ func H_C17_params() {
 	nd.Assert("C17.params", err == nil)
 }
 
-// H_C17_state: from every RI state (take rate and take-rate clock symbolic, pending unbondings,
-// a pending redelegation, rebalance requested or not) the whole EndBlocker returns nil without
-// panic at any later block time (take-rate exponent within the unrolling bound).
+// H_C17_state: from every RI state (take rate and take-rate clock symbolic, pending unbondings
+// in several packings, a pending redelegation) the EndBlocker returns nil without panic at any
+// later block time (take-rate exponent within the unrolling bound). The rebalancing and the
+// weight-decay steps of EndBlocker are shown total by C10.consume / C10.target (.ok) and
+// C14.decay (.ok) on their own state spaces; here share prices are 1 so that every branch of
+// the remaining steps is decided by linear arithmetic.
 func H_C17_state() {
 	id := "C17.state"
 	ps := shapeActor("shape")
-	pk := nd.Choice("pending", 3)
-	flag := nd.Choice("rebalance", 2)
-	st := Build(ps, Opts{TakeRate: true, Params: true, Rewards: true, BigPool: true})
+	pk := nd.Choice("pending", 5)
+	st := Build(ps, Opts{TakeRate: true, Params: true, UnitPrice: true})
 	e := st.E
 	pendingUnbondings(st, pk)
 	InstallRedelegation(e, 1, 1, 0, 0, nd.IntRange("r1", "1", Pow30), nd.TimeRange("rc1", TLo, THi))
-	if flag == 1 {
-		_ = e.K.QueueAssetRebalanceEvent(e.Ctx)
-	}
-	tagLiveness(e, 0)
-	tagLiveness(e, 1)
 	t1 := nd.TimeRange("t1", TLo, THi)
 	nd.Assume(!t1.Before(st.T0))
 	boundIntervals(st, t1, 3)
@@ -78,7 +75,11 @@ func H_C17_decay_overflow_X() {
 		nd.Tag("growth-rate")
 	}
 	e, t0, a := decayState(rate, false, false)
-	n := nd.Choice("n", 9)
+	maxN := 3 // quick: up to 2 compounding steps; thorough: 8
+	if nd.Thorough() {
+		maxN = 9
+	}
+	n := nd.Choice("n", maxN)
 	t1 := t0.Add(time.Duration(n) * time.Hour)
 	e.WithBlock(t1, 101)
 	_ = a
